@@ -4,6 +4,7 @@ import datetime
 import math
 import random
 
+from vpm import history
 from vpm.oracles import sphere as sp
 
 ID = "C08"
@@ -53,7 +54,7 @@ def anchors():
 
 
 POINTS = {}
-REQUIRED_CLAUSES = ["reflection.geometric", "reflection.apparent",
+REQUIRED_CLAUSES = [history.CLAUSE, "reflection.geometric", "reflection.apparent",
                     "frame.mean-equinox", "frame.j2000", "frame.b1950",
                     "frame.equinox", "frame.norm==R", "obliquity~IAU",
                     "nutation.longitude~18.6yr", "nutation.obliquity~18.6yr",
@@ -335,12 +336,13 @@ def case_forms(mon, y, m, d):
                   dict(case, fn=name, values=vals))
 
 
-CASES = {"reflection": case_reflection, "frames": case_frames,
+CASES = {"history": history.case, "reflection": case_reflection, "frames": case_frames,
          "obliquity": case_obliquity, "coarse": case_coarse,
          "forms": case_forms}
 
 
 def run(mon, spec):
+    history.run_cases(mon, ID, spec)
     if not sp.self_check():
         raise RuntimeError("sphere self-check failed")
     rng = random.Random(spec["seed"] * 1000003 + spec["idx"])
